@@ -124,6 +124,10 @@ let () =
              | _ -> emit "out-of-fuel")
           else emit (hexs (reference_strip (cstr s)))
         | ["rt"; tr] -> rt None tr
+        | ["rtx"; tr] ->
+          (* rt on a tree whose text (1 MB at depth 1000) the list-based model parser needs minutes for: the model makes
+             no statement, the spec line is the one of rt (from the tree alone: in_class, canon) *)
+          if model then emit "? | ??*" else rt None tr
         | ["rtinto"; t0; tr] -> rt (Some t0) tr
         | ["parse2"; flag; h1; h2] ->
           if model then begin
